@@ -226,7 +226,11 @@ class ResponseEncoder:
                 for element in encs:
                     if element.qvalue > 0:
                         if element.value == '*':
-                            # Matches any charset. Try our default.
+                            # Matches any charset not mentioned elsewhere
+                            # in the field. Try our default, unless the
+                            # client ranked it with an entry of its own.
+                            if self.default_encoding.lower() in charsets:
+                                continue
                             if self.debug:
                                 cherrypy.log('Attempting default encoding due '
                                              'to %r' % element, 'TOOLS.ENCODE')
